@@ -52,6 +52,7 @@ Section Term.
         { cbn [clock w1 Client.upd]. rewrite Hdur in *. rewrite Nat2Z.inj_succ in Hf. nia. }
         destruct H1 as [H1 H2].
         destruct rr as [b| |]; [|destruct (disconnect _ _) as [s2 w2]; intros [= <- <- <-]; discriminate|destruct (disconnect _ _) as [s2 w2]; intros [= <- <- <-]; discriminate].
+        destruct (length b =? 0)%nat; [intros [= <- <- <-]; discriminate|].
         destruct ((32 * (length (pend ++ b) / 32)) =? 0)%nat.
         * apply IH; assumption.
         * destruct (dec (div s) _) as [pt iv'].
